@@ -507,20 +507,44 @@ def check_iterative_history(pb, opts, ret, events, ll_lib, eval_log):
             return bad, info
     else:
         all_idx = np.arange(budget)
-    if not unis:
-        return [("inconclusive-pattern", "no uniform draws recorded")], info
-    sizes = [int(np.size(e["result"])) for e in unis]
-    if any(b <= a for a, b in zip(sizes, sizes[1:])):
-        return [("inconclusive-pattern", "uniform draw sizes %r are not increasing per iteration" % sizes)], info
-    total = sizes[-1]
-    info.update(iterations=len(sizes), evaluated=total, budget=budget)
     # what the sampler asked the likelihood code to evaluate
     ev = np.concatenate([np.asarray(x, dtype=int) for x in eval_log]) if eval_log else np.array([], dtype=int)
+    # ---- monitors that do not depend on how the uniforms were drawn
+    from thejoker import JokerSamples as _JS
+    if isinstance(ret, _JS) and len(ev):
+        gp = np.asarray(ret["P"].to_value("d"), dtype=float)
+        tg, okm = tags_of(pb, gp)
+        if np.all(okm):
+            evset = set(ev.tolist())
+            if not set(tg.tolist()) <= evset:
+                bad.append(("row-not-evaluated", "a returned row was never evaluated"))
+            else:
+                with np.errstate(all="ignore"):
+                    mx = np.max(ll_lib[ev])
+                    ratio_ret = np.exp(ll_lib[tg] - mx)
+                # under the rule a row survives with probability L_i / L_max(all evaluated): a returned row whose
+                # ratio is below 1e-9 is a rule violation with false-alarm probability < 1e-9 per row
+                if np.isfinite(mx) and np.any(ratio_ret < 1e-9):
+                    k = int(np.argmin(ratio_ret))
+                    bad.append(("accepted-against-stale-maximum", "returned library row %d has L/L_max = %.3g against the maximum "
+                                "over all %d evaluated samples: it cannot have passed exp(ll - max) > u"
+                                % (int(tg[k]), float(ratio_ret[k]), len(ev))))
+                if np.isfinite(mx) and len(tg) and int(ev[int(np.argmax(ll_lib[ev]))]) not in set(tg.tolist()) \
+                        and len(set(tg.tolist())) < int(opts["n_requested_samples"]):
+                    bad.append(("best-sample-lost", "the maximum-likelihood evaluated row is not among the returned rows although "
+                                "fewer than n_requested_samples were returned"))
     if len(ev) > budget:
         bad.append(("budget-exceeded", "evaluated %d prior samples, budget is %d (max_prior_samples=%r, library %d)"
                     % (len(ev), budget, opts.get("max_prior_samples"), N)))
     if len(np.unique(ev)) != len(ev):
         bad.append(("row-evaluated-twice", "a library row was evaluated more than once"))
+    if not unis:
+        return bad + [("inconclusive-pattern", "no uniform draws recorded")], info
+    sizes = [int(np.size(e["result"])) for e in unis]
+    if any(b <= a for a, b in zip(sizes, sizes[1:])):
+        return bad + [("inconclusive-pattern", "uniform draw sizes %r are not cumulative per iteration" % sizes)], info
+    total = sizes[-1]
+    info.update(iterations=len(sizes), evaluated=total, budget=budget)
     if len(ev) and (ev.min() < 0 or ev.max() >= N):
         bad.append(("row-out-of-library", "evaluation requested rows outside the library"))
     if len(ev) != total:
@@ -583,9 +607,13 @@ def iterative_session(ctx, i, rng, return_logprobs=False, problem_kw=None):
     in_memory = bool(rng.random() < 0.45)
     as_file = (not in_memory) and bool(rng.random() < 0.5)
     n_req = int(rng.choice([1, 2, 5, 20, 60, 200]))
+    multi = rng.random() < 0.45          # aim at runs that need several iterations
     opts = dict(in_memory=in_memory, n_requested_samples=n_req, n_linear_samples=int(rng.choice([1, 1, 2])))
     r = rng.random()
-    if r < 0.5:
+    if multi:
+        opts["init_batch_size"] = int(rng.choice([3, 8, 20, 50]))
+        opts["n_requested_samples"] = n_req = int(rng.choice([5, 20, 60]))
+    elif r < 0.5:
         opts["init_batch_size"] = int(rng.choice([1, 5, 20, 100, 1000, N, N + 1, 3 * N]))
     if rng.random() < 0.5:
         opts["growth_factor"] = int(rng.choice([1, 2, 8, 32, 128]))
